@@ -567,7 +567,9 @@ CLAUSE_PROPS = {"wf": ["C14"], "den": ["C02"], "denbag": ["C02", "C17"], "denlis
 
 CONFIGS = {
     "quick": [("SqlQuick.cfg", 6), ("SqlFocusQ.cfg", 4), ("SqlChainQ.cfg", 4), ("SqlJoinQ.cfg", 4)],
-    "thorough": [("SqlQuick.cfg", 2), ("SqlJoinQ.cfg", 2), ("SqlFocus.cfg", 4), ("SqlChain.cfg", 4), ("SqlGeneral.cfg", 8), ("SqlFocus5.cfg", 32)],
+    "thorough": [("SqlQuick.cfg", 2), ("SqlJoinQ.cfg", 2), ("SqlFocus.cfg", 4), ("SqlChain.cfg", 4), ("SqlGeneral.cfg", 8)],
+    # thorough plan for the properties this family serves in second place
+    "thorough-lite": [("SqlQuick.cfg", 1), ("SqlJoinQ.cfg", 1), ("SqlChain.cfg", 2)],
 }
 
 
@@ -575,7 +577,10 @@ def run(tier: str, seed: int) -> list[Part]:
     from .fam_iter import judge_trees
 
     parts = []
-    for cfg, every in CONFIGS[tier]:
+    plan = CONFIGS[tier]
+    if tier == "thorough" and os.environ.get("VERIF_FOCUS", "") in ("C06", "C14", "C16", "C20"):
+        plan = CONFIGS["thorough-lite"]
+    for cfg, every in plan:
         t0 = time.time()
         res = run_tlc("MC_Sql.tla", cfg, heap="6g" if tier == "thorough" else "3g", timeout=7200)
         if res.violated:
